@@ -145,15 +145,17 @@ func (t Time) JS() native.JS {
 		return native.JS(fmt.Sprintf(format, y, t.t.Month(), t.t.Day(), t.t.Hour(), t.t.Minute(), t.t.Second(), ms))
 	}
 	zone := offset / 60
+	sign := '+'
+	if zone < 0 {
+		sign = '-'
+		zone = -zone
+	}
 	h, m := zone/60, zone%60
-	if m < 0 {
-		m = -m
-	}
-	format := `new Date("%0.4d-%0.2d-%0.2dT%0.2d:%0.2d:%0.2d.%0.3d%+0.2d:%0.2d")`
+	format := `new Date("%0.4d-%0.2d-%0.2dT%0.2d:%0.2d:%0.2d.%0.3d%c%0.2d:%0.2d")`
 	if y < 0 || y > 9999 {
-		format = `new Date("%+0.6d-%0.2d-%0.2dT%0.2d:%0.2d:%0.2d.%0.3d%+0.2d:%0.2d")`
+		format = `new Date("%+0.6d-%0.2d-%0.2dT%0.2d:%0.2d:%0.2d.%0.3d%c%0.2d:%0.2d")`
 	}
-	return native.JS(fmt.Sprintf(format, y, t.t.Month(), t.t.Day(), t.t.Hour(), t.t.Minute(), t.t.Second(), ms, h, m))
+	return native.JS(fmt.Sprintf(format, y, t.t.Month(), t.t.Day(), t.t.Hour(), t.t.Minute(), t.t.Second(), ms, sign, h, m))
 }
 
 // JSON returns a time in a format suitable for use in JSON.
